@@ -23,12 +23,15 @@ def main():
     ap.add_argument('--verif', default=ROOT)
     ap.add_argument('--checks', default=None)
     ap.add_argument('--skip-confirm', action='store_true')
+    ap.add_argument('--round', default='1', help="'2': the second set of harmless rewrites (wth2 / outh2, stored as <Cxx>-g<N>)")
     a = ap.parse_args()
     base = '/tmp/mut/%s' % a.pid
-    wt, diff = base + '/wt', '%s/outh/h%s.diff' % (base, a.n)
-    equiv, meta_in = '%s/outh/h%s_equiv.py' % (base, a.n), '%s/outh/h%s.json' % (base, a.n)
+    r2 = a.round == '2'
+    wt, outd, tag = (base + '/wth2', base + '/outh2', 'g') if r2 else (base + '/wt', base + '/outh', 'h')
+    diff = '%s/h%s.diff' % (outd, a.n)
+    equiv, meta_in = '%s/h%s_equiv.py' % (outd, a.n), '%s/h%s.json' % (outd, a.n)
     env = dict(PYTHONPATH=wt, PYTHONHASHSEED='0', MPLBACKEND='Agg')
-    res = dict(property=a.pid, rewrite='h%s' % a.n)
+    res = dict(property=a.pid, rewrite='%s%s' % (tag, a.n))
     sh(['git', 'checkout', '--', '.'], cwd=wt)
     rc, out = sh(['git', 'apply', diff], cwd=wt)
     if rc != 0:
@@ -56,10 +59,10 @@ def main():
                     pass
     finally:
         sh(['git', 'checkout', '--', '.'], cwd=wt)
-    res['confirmed_harmless'] = a.skip_confirm or (res.get('equiv_exit') == 0 and res.get('tests_passed') == 71)
+    res['confirmed_harmless'] = a.skip_confirm or (res.get('equiv_exit') == 0 and res.get('tests_passed', 0) >= 71)
     res['silent'] = all(c['exit'] == 0 and not c['violation'] for c in res['checks'].values())
     print(json.dumps(res, indent=1))
-    d = os.path.join(ROOT, 'seeded', '%s-h%s' % (a.pid, a.n))
+    d = os.path.join(ROOT, 'seeded', '%s-%s%s' % (a.pid, tag, a.n))
     mp = os.path.join(d, 'meta.json')
     if a.skip_confirm and os.path.exists(mp):
         meta = json.load(open(mp))
